@@ -5,6 +5,10 @@ Model-based monitor: a reference derivation of the key of every input line (gvmo
 compared with the ids the real create_db / FeatureDB.update assign; every stored feature is looked up by key and by
 Feature; generated near-miss keys must raise FeatureNotFoundError; a multi-valued id attribute reached by the spec
 must make the import raise.  Runtime contract (icontract) on the real _DBCreator._increment_featuretype_autoid.
+
+Case kinds: "import" (optionally with "keys" = non-default [gtf_transcript_key, gtf_gene_key] under id_spec None, or with
+"family"/"probe" = confusable spellings of the stored ids) and "stale" (Feature handles fetched before delete / update /
+replace, and handles from another database, looked up again; see execute_stale).
 """
 import os
 
@@ -18,14 +22,27 @@ RULE = ("files of n in {1..6,8,12,20} lines (GFF3 and GTF) whose features have /
         "(plus flags, Notes, Parents, exotic id strings such as 'exon_57') x 13 id_spec forms (None = default of the format, "
         "attribute name, ':column:', list, list ending in a column, dict of str, dict of list, six callables returning "
         "None / a string / 'autoincrement:X') x {create_db, create_db + update} x {:memory:, file, reopened file} x GTF "
-        "inference on/off; non-trivial = >= 2 different derivation branches taken in one file (or a rejected multi-valued "
-        "id); distinct = distinct (format, spec, path, file content)")
+        "inference on/off. Plus: (keys) GTF files imported with id_spec None and non-default gtf_transcript_key/gtf_gene_key "
+        "(lines carry gene_id/transcript_id and/or the custom keys, with different values); (confusable) files whose ids "
+        "differ only in letter case, in leading/trailing/inner blanks, are numeric-looking ('1', '01', '1.0', '1e3') or "
+        "contain '%' / '_', the unused members of the family being probed as absent keys; (stale/foreign handles) Feature "
+        "objects fetched earlier are looked up again after delete (highest rowid / middle / first), update() (rowids "
+        "reused) and replace, through the same or a second FeatureDB on the file, and Features read from another database "
+        "holding the same ids at other positions are looked up. non-trivial = >= 2 different derivation branches taken in "
+        "one file (or a rejected multi-valued id), or a handle whose position holds another id; distinct = distinct "
+        "(format, spec, path, file content, script)")
 REQUIRED = ["imports", "keys compared with the reference derivation", "lookups db[key]", "lookups db[feature]",
-            "absent keys probed", "multi-valued id rejected", "autoid contract evaluations", "update() imports"]
-REQUIRED_CLASSES = ["fmt=gff3", "fmt=gtf"] + ["form=" + f for f in G.FORMS] + [
+            "absent keys probed", "multi-valued id rejected", "autoid contract evaluations", "update() imports",
+            "keys compared: GTF, id_spec None, non-default gtf keys", "confusable stored keys looked up",
+            "confusable absent keys probed", "stale handles looked up", "stale handles whose position now holds another id",
+            "stale handles whose id is gone: FeatureNotFoundError", "stale handles of a replaced feature: current content returned",
+            "foreign handles looked up", "foreign handles sitting at another position"]
+REQUIRED_CLASSES = ["fmt=gff3", "fmt=gtf"] + ["form=" + f for f in G.FORMS] + ["form=confusable"] + [
     "branch=attribute#0", "branch=attribute#1", "branch=column", "branch=fallback", "branch=dict:no entry->fallback",
     "branch=dict:entry absent->fallback", "branch=callable:None->fallback", "branch=callable:autoincrement",
-    "branch=callable:string", "branch=multi-valued->reject"]
+    "branch=callable:string", "branch=multi-valued->reject", "gtf: id_spec None with non-default gtf keys",
+    "confusable=case", "confusable=blank", "confusable=numeric", "confusable=like", "stale: changed through the same handle",
+    "stale: changed through another handle", "stale op=delete top", "stale op=update", "stale op=replace"]
 ASSUMPTIONS = [
     "inputs on which the derived keys collide are not judged (the key would then be altered by the merge strategy, "
     "which is C05's subject); they are skipped and counted",
@@ -35,6 +52,12 @@ ASSUMPTIONS = [
     "features inferred by the GTF importer (source gffutils_derived) are looked up but their keys are judged by C03",
     "the callables are pure functions of the feature; both sides call the same function, so only the importer's use of "
     "the returned value is judged",
+    "GTF with id_spec None: the default id_spec of the format ('gene' -> gene_id, 'transcript' -> transcript_id, every other "
+    "featuretype '<featuretype>_<n>') applies whatever gtf_transcript_key / gtf_gene_key are; update() is called without the "
+    "two keys (inference off there)",
+    "db[feature] means db[feature.id]: a Feature fetched earlier or from another database is only a carrier of its id; "
+    "what is stored under an id after delete/update/replace is read with plain sqlite3 (not predicted), and an update() "
+    "that raises on these inputs is skipped and counted",
 ]
 QUICK_SHARDS = 4
 THOROUGH_SHARDS = 16
@@ -78,6 +101,8 @@ def text_of(recs, fmt):
 def execute(ctx, case):
     import gffutils
 
+    if case.get("kind") == "stale":
+        return execute_stale(ctx, case)
     fmt, spec = case["fmt"], case["spec"]
     batches = case["batches"]
     # ---- reference derivation, batch by batch, one set of counters
@@ -105,6 +130,9 @@ def execute(ctx, case):
         kw["id_spec"] = real_spec(spec)
     if fmt == "gtf" and not case["infer"]:
         kw.update(disable_infer_genes=True, disable_infer_transcripts=True)
+    kw_create = dict(kw)
+    if case.get("keys"):
+        kw_create.update(gtf_transcript_key=case["keys"][0], gtf_gene_key=case["keys"][1])
     db = None
     try:
         expected, recs_so_far = [], []
@@ -120,7 +148,7 @@ def execute(ctx, case):
                 data, from_string = text, True
             try:
                 if bi == 0:
-                    db = gffutils.create_db(data, dbfn, from_string=from_string, **kw)
+                    db = gffutils.create_db(data, dbfn, from_string=from_string, **kw_create)
                     ctx.mon("imports")
                 else:
                     db.update(data, from_string=from_string, make_backup=False, merge_strategy="error", **kw)
@@ -183,6 +211,8 @@ def compare(ctx, case, db, expected, recs, branches, deriver, what):
         return False
     for i, (row, rec, exp) in enumerate(zip(rows, recs, expected)):
         ctx.mon("keys compared with the reference derivation")
+        if case.get("keys"):
+            ctx.mon("keys compared: GTF, id_spec None, non-default gtf keys")
         same_line = (row["seqid"] == rec["seqid"] and row["featuretype"] == rec["featuretype"]
                      and str(row["start"]) == rec["start"] and str(row["end"]) == rec["end"])
         if not same_line:
@@ -203,9 +233,12 @@ def compare(ctx, case, db, expected, recs, branches, deriver, what):
         ctx.violation(case, {"why": "%s: Feature.id values differ from the id column" % what, "text": text})
         return False
     byid = dict((row["id"], rec) for row, rec in zip(rows, recs))
+    family = set(case.get("probe") or ())
     for f in feats:
         for how, arg in (("db[key]", f.id), ("db[feature]", f)):
             ctx.mon("lookups " + how)
+            if f.id in family:
+                ctx.mon("confusable stored keys looked up")
             try:
                 g = db[arg]
             except Exception as ex:
@@ -233,12 +266,15 @@ def compare(ctx, case, db, expected, recs, branches, deriver, what):
     for base, n in sorted(deriver.counters.items()):
         probes += ["%s_%d" % (base, n + 1), "%s_0" % base, "%s_%02d" % (base, n), "%s-%d" % (base, n), base]
     probes += ["exon_0", "", "ID", "None", "%", "_"]
+    probes += list(case.get("probe") or ())
     for k in dict.fromkeys(probes):
         if k in stored:
             continue
         for how in ("key", "feature"):
             arg = k if how == "key" else gffutils.Feature(seqid="chr1", start=1, end=2, id=k)
             ctx.mon("absent keys probed")
+            if k in family:
+                ctx.mon("confusable absent keys probed")
             try:
                 got = db[arg]
             except gffutils.FeatureNotFoundError:
@@ -254,23 +290,204 @@ def compare(ctx, case, db, expected, recs, branches, deriver, what):
     return True
 
 
+def rowids(db):
+    """id -> rowid, read with plain SQL on the connection (committed state)."""
+    return dict((i, r) for r, i in db.conn.execute("SELECT rowid, id FROM features").fetchall())
+
+
+def same_as_row(g, row):
+    attrs = dict((k, list(g.attributes[k])) for k in g.attributes.keys())
+    want = dict((k, list(v)) for k, v in row["attributes"]) if isinstance(row["attributes"], list) else None
+    return (g.seqid, g.source, g.featuretype, g.start, g.end, g.score, g.strand, g.frame) == tuple(
+        row[c] for c in MC.COLUMNS) and attrs == want
+
+
+def execute_stale(ctx, case):
+    """
+    Feature objects fetched earlier (they carry the position they were read from) are looked up again after the
+    database changed; so are Features read from another database.  db[feature] is db[feature.id]: the feature now
+    stored under that id, FeatureNotFoundError when the id is gone, never a feature with another id.
+    """
+    import gffutils
+
+    fmt, spec = case["fmt"], case["spec"]
+    kw = {}
+    if spec["form"] != "none":
+        kw["id_spec"] = real_spec(spec)
+    if fmt == "gtf":
+        kw.update(disable_infer_genes=True, disable_infer_transcripts=True)
+    dbfn = ctx.tmp(".db") if case["db"] == "file" else ":memory:"
+    opened = []
+    stats = {"moved": 0}
+    try:
+        try:
+            db = gffutils.create_db(text_of(case["base"], fmt), dbfn, from_string=True, **kw)
+            opened.append(db)
+            fo = case["foreign"]
+            frecs = [case["base"][i] for i in fo["perm"]]
+            frecs = (fo["extra"] + frecs) if fo["extra_first"] else (frecs + fo["extra"])
+            other = gffutils.create_db(text_of(frecs, fmt), ":memory:", from_string=True, **kw)
+            opened.append(other)
+        except Exception as ex:
+            ctx.violation(case, {"why": "create_db raised %r on an input whose keys are all distinct" % (ex,), "text": text_of(case["base"], fmt)})
+            return None
+        ctx.mon("imports", 2)
+        writer = db
+        if case["via"] == "other":
+            writer = gffutils.FeatureDB(dbfn)
+            opened.append(writer)
+        readers = [("the handle that fetched the features", db)] + ([("the second handle", writer)] if writer is not db else [])
+        handles = [("stale", f) for f in db.all_features()]
+        handles += [("foreign", f) for f in other.all_features()]
+        replaced = set()
+
+        def verify(stage):
+            dump = dbdump.dump_db(db)
+            rows = dict((f["id"], f) for f in dump["features"])
+            at = rowids(db)
+            holder = dict((r, i) for i, r in at.items())
+            for origin, h in handles:
+                moved = h.file_order is not None and holder.get(h.file_order) != h.id
+                elsewhere = moved and holder.get(h.file_order) is not None
+                for rname, r in readers:
+                    ctx.mon("%s handles looked up" % origin)
+                    if origin == "stale" and elsewhere:
+                        ctx.mon("stale handles whose position now holds another id")
+                        stats["moved"] += 1
+                    if origin == "foreign" and moved:
+                        ctx.mon("foreign handles sitting at another position")
+                        stats["moved"] += 1
+                    detail = {"stage": stage, "handle": origin, "looked up through": rname, "feature.id": h.id,
+                              "feature.file_order": h.file_order, "id stored at that position now": holder.get(h.file_order),
+                              "stored ids": sorted(rows)[:20], "base": text_of(case["base"], fmt)}
+                    try:
+                        g = r[h]
+                    except gffutils.FeatureNotFoundError:
+                        if h.id in rows:
+                            ctx.violation(case, dict(detail, why="db[feature] raises FeatureNotFoundError although a feature is stored under feature.id"))
+                            return False
+                        ctx.mon("%s handles whose id is gone: FeatureNotFoundError" % origin)
+                        continue
+                    except Exception as ex:
+                        ctx.violation(case, dict(detail, why="db[feature] raises %s" % type(ex).__name__, error=repr(ex)))
+                        return False
+                    got = None if g is None else [getattr(g, "id", None), str(g)]
+                    if h.id not in rows:
+                        ctx.violation(case, dict(detail, why="db[feature] returns a feature although nothing is stored under feature.id (FeatureNotFoundError expected)",
+                                                 returned=got))
+                        return False
+                    if g is None or g.id != h.id:
+                        ctx.violation(case, dict(detail, why="db[feature] returns a feature with another id", returned=got))
+                        return False
+                    if not same_as_row(g, rows[h.id]):
+                        ctx.violation(case, dict(detail, why="db[feature] does not return the feature currently stored under feature.id",
+                                                 returned=got, row=rows[h.id]))
+                        return False
+                    if origin == "stale" and h.id in replaced and str(g) != str(h):
+                        ctx.mon("stale handles of a replaced feature: current content returned")
+            return True
+
+        if not verify("before any change"):
+            return None
+        for n, op in enumerate(case["ops"]):
+            at = rowids(db)
+            order = sorted(at, key=at.get)
+            stage = "after op %d (%s)" % (n, op["op"] + (" " + op["which"] if "which" in op else ""))
+            try:
+                if op["op"] == "delete":
+                    if not order:
+                        continue
+                    victim = {"top": order[-1], "first": order[0], "mid": order[len(order) // 2]}[op["which"]]
+                    arg = victim
+                    if op["as"] != "id":
+                        arg = gffutils.Feature(seqid="chr1", start=1, end=2, id=victim)
+                        try:
+                            arg = writer[victim]
+                        except Exception:
+                            pass
+                        if op["as"] == "list":
+                            arg = [arg]
+                    writer.delete(arg, make_backup=False)
+                    ctx.mon("delete() calls")
+                    ctx.classes["stale op=delete " + op["which"]] += 1
+                elif op["op"] == "update":
+                    writer.update(text_of(op["recs"], fmt), from_string=True, make_backup=False, merge_strategy="error", **kw)
+                    ctx.mon("update() imports")
+                    ctx.classes["stale op=update"] += 1
+                else:
+                    writer.update(text_of([op["rec"]], fmt), from_string=True, make_backup=False, merge_strategy="replace", **kw)
+                    ctx.mon("update() imports")
+                    ctx.mon("replace updates")
+                    replaced.add(op["key"])
+                    ctx.classes["stale op=replace"] += 1
+            except Exception as ex:
+                ctx.skip("stale: %s raised %s (not this class's subject)" % (op["op"], type(ex).__name__))
+                return stats
+            if not verify(stage):
+                return None
+            # later generations of handles: what the database hands out now
+            known = set((o, h.id, h.file_order) for o, h in handles)
+            for r in set(x for _, x in readers):
+                for f in r.all_features():
+                    if ("stale", f.id, f.file_order) not in known:
+                        known.add(("stale", f.id, f.file_order))
+                        handles.append(("stale", f))
+        return stats
+    finally:
+        for d in opened:
+            try:
+                d.conn.close()
+            except Exception:
+                pass
+        if dbfn != ":memory:" and os.path.exists(dbfn):
+            os.unlink(dbfn)
+        for v in contracts.drain():
+            ctx.violation(case, v)
+
+
+def account(ctx, case, branches):
+    kinds = sorted(set(branches))
+    outcome = "reject" if "multi-valued->reject" in kinds else "keys"
+    for cls in ["fmt=" + case["fmt"], "form=" + case["form"], "outcome=" + outcome, "path=" + (
+            "create" if len(case["batches"]) == 1 else "create+update"), "db=" + case["db"]] + ["branch=" + b for b in kinds]:
+        ctx.classes[cls] += 1
+    if case["fmt"] == "gtf":
+        ctx.classes["gtf inference " + ("on" if case["infer"] else "off")] += 1
+    if case.get("keys"):
+        ctx.classes["gtf: id_spec None with non-default gtf keys"] += 1
+    if case.get("family"):
+        ctx.classes["confusable=" + case["family"]] += 1
+    text = "".join(text_of(b, case["fmt"]) for b in case["batches"])
+    ctx.case((case["fmt"], case["spec"], len(case["batches"]), case["infer"], case.get("keys"), text),
+             len(kinds) >= 2 or outcome == "reject" or bool(case.get("family")),
+             sample={"fmt": case["fmt"], "spec": case["spec"], "branches": kinds, "keys": case.get("keys"), "text": text[:500]})
+
+
 def run(ctx):
     rng = ctx.rng
-    for _ in range(ctx.budget(3600, 64000)):
+    for _ in range(ctx.budget(3000, 56000)):
         case = G.gen_case(rng)
         branches = execute(ctx, case)
-        if branches is None:
+        if branches is not None:
+            account(ctx, case, branches)
+    for gen, quick, thorough in ((G.gen_keys_case, 320, 6000), (G.gen_confusable_case, 160, 3000)):
+        for _ in range(ctx.budget(quick, thorough)):
+            case = gen(rng)
+            branches = execute(ctx, case)
+            if branches is not None:
+                account(ctx, case, branches)
+    for _ in range(ctx.budget(240, 4500)):
+        case = G.gen_stale_case(rng)
+        stats = execute(ctx, case)
+        if stats is None:
             continue
-        kinds = sorted(set(branches))
-        outcome = "reject" if "multi-valued->reject" in kinds else "keys"
-        for cls in ["fmt=" + case["fmt"], "form=" + case["form"], "outcome=" + outcome, "path=" + (
-                "create" if len(case["batches"]) == 1 else "create+update"), "db=" + case["db"]] + ["branch=" + b for b in kinds]:
-            ctx.classes[cls] += 1
-        if case["fmt"] == "gtf":
-            ctx.classes["gtf inference " + ("on" if case["infer"] else "off")] += 1
-        text = "".join(text_of(b, case["fmt"]) for b in case["batches"])
-        ctx.case((case["fmt"], case["spec"], len(case["batches"]), case["infer"], text), len(kinds) >= 2 or outcome == "reject",
-                 sample={"fmt": case["fmt"], "spec": case["spec"], "branches": kinds, "text": text[:500]})
+        ctx.classes["stale: changed through %s handle" % ("the same" if case["via"] == "same" else "another")] += 1
+        ctx.classes["fmt=" + case["fmt"]] += 1
+        ctx.case(("stale", case["fmt"], case["spec"], text_of(case["base"], case["fmt"]), case["ops"], case["via"], case["foreign"]["perm"]),
+                 stats["moved"] > 0,
+                 sample={"kind": "stale", "fmt": case["fmt"], "spec": case["spec"], "via": case["via"],
+                         "ops": [o["op"] + ("_" + o["which"] if "which" in o else "") for o in case["ops"]],
+                         "base": text_of(case["base"], case["fmt"])[:400]})
     ctx.mon("autoid contract evaluations", contracts.EVALS["autoid"])
     ctx.mon("bins.bins contract evaluations", contracts.EVALS["bins.bins"])
 
@@ -283,7 +500,12 @@ MANIFEST = {
             "line with a reference derivation written from the statement; every stored feature is fetched with db[key] "
             "and db[feature] and must be that feature; generated near-miss keys must raise FeatureNotFoundError and "
             "nothing else; a multi-valued id attribute reached by the spec must make the import raise. A runtime "
-            "contract on the real counter function checks +1 per call and no key handed out twice per import.",
+            "contract on the real counter function checks +1 per call and no key handed out twice per import. GTF files are "
+            "also imported with id_spec None under non-default gtf keys (the format's default spec must apply); files with "
+            "ids that differ only in case / blanks / numeric spelling / '%' and '_' are looked up exactly and the unused "
+            "spellings probed as absent; Feature objects fetched before a delete / update (rowids reused) / replace, "
+            "through the same or a second FeatureDB, and Features read from another database are looked up again: the "
+            "result must be the feature now stored under feature.id, or FeatureNotFoundError.",
     "note": "Trusted: gvmon/models/C04.py, the reference renderer, icontract. Inputs whose derived keys collide are "
             "skipped (C05 judges them).",
 }
